@@ -66,7 +66,7 @@ func VerifC01Framing() {
 	h := &verifHandler1{kind: verifChoice(4), rcode: int(rc)}
 	req := verifQuery(id)
 	if verifChoice(2) == 0 {
-		srv := &ServerDNSCrypt{ServerBase: newServerBase(ProtoDNSCrypt, ConfigBase{Handler: h})}
+		srv := &ServerDNSCrypt{ServerBase: newServerBase(ProtoDNSCrypt, ConfigBase{Handler: h, Disposer: &verifScrambler{}})}
 		rw := &verifDCRW{}
 		err := (&dnsCryptHandler{srv: srv}).ServeDNS(rw, req)
 		verifAssert("no-error", err == nil)
@@ -83,7 +83,7 @@ func VerifC01Framing() {
 	// DoQ: the query arrives framed; the response must be framed with its exact length
 	verifPoolMode(1)
 	s := verifNewQUIC()
-	s.ServerBase = newServerBase(ProtoDoQ, ConfigBase{Handler: h})
+	s.ServerBase = newServerBase(ProtoDoQ, ConfigBase{Handler: h, Disposer: &verifScrambler{}})
 	wire, perr := req.Pack()
 	verifAssume(perr == nil)
 	framed := append([]byte{byte(len(wire) >> 8), byte(len(wire))}, wire...)
